@@ -1,5 +1,6 @@
 // Per-case time limit of the fork-per-case drivers: a CPU-time limit (so that a busy machine does not turn a slow
-// case into a reported hang) with a generous wall-clock backstop for a child that blocks without using the CPU.
+// case into a reported hang) with a wall-clock backstop of three times the limit for a child that blocks without using
+// the CPU (or, in an OpenMP build, keeps one thread busy: its CPU limit is scaled by the thread count).
 #ifndef VERIF_CASELIMIT_HPP
 #define VERIF_CASELIMIT_HPP
 #include <csignal>
@@ -17,7 +18,7 @@ static inline void verif_case_limit(int seconds) {
     rl.rlim_cur = (rlim_t) seconds * threads;
     rl.rlim_max = (rlim_t) seconds * threads + 5;
     setrlimit(RLIMIT_CPU, &rl);
-    alarm((unsigned) seconds * 10u);
+    alarm((unsigned) seconds * 3u);
 }
 static inline bool verif_is_timeout(int sig) { return sig == SIGALRM || sig == SIGXCPU; }
 #endif
